@@ -237,6 +237,10 @@ fn structural_menu(s: &SeedInfo, thorough: bool) -> Vec<(String, String, Patch, 
             ("both 0", 0, 0),
             ("reference count 65535", len, 0xFFFF),
             ("long-string escape", 0, 2),
+            // escapes whose high word makes the next entry's length huge
+            ("huge long-string escape", 0, 0xFFFF),
+            ("2 GiB long-string escape", 0, 0x8000),
+            ("16 MiB long-string escape", 0, 0x0100),
         ];
         for (what, l, r) in variants {
             let mut b = pool.clone();
@@ -247,6 +251,20 @@ fn structural_menu(s: &SeedInfo, thorough: bool) -> Vec<(String, String, Patch, 
             }
             out.push((format!("pool entry {} <- {}", i + 1, what), format!("pool-entry:{}", what.replace(' ', "-")), put(&s.entries, &pool_raw, b), s.clsid.clone()));
         }
+    }
+    // appended entries whose lengths add up to 2^32 and beyond
+    for (what, pairs) in [
+        ("one 4 GiB string", vec![(0u16, 0xFFFFu16), (0xFFFF, 1)]),
+        ("two 2 GiB strings", vec![(0, 0x8000), (0, 1), (0, 0x8000), (0, 1)]),
+        ("256 strings of 16 MiB", (0..256).flat_map(|_| vec![(0u16, 0x0100u16), (0, 1)]).collect::<Vec<_>>()),
+        ("4 GiB + 1", vec![(0, 0xFFFF), (0xFFFF, 1), (1, 1)]),
+    ] {
+        let mut b = pool.clone();
+        for (l, r) in pairs {
+            b.extend_from_slice(&l.to_le_bytes());
+            b.extend_from_slice(&r.to_le_bytes());
+        }
+        out.push((format!("pool extended by {}", what), "pool-entry:lengths-overflowing-32-bits".into(), put(&s.entries, &pool_raw, b), s.clsid.clone()));
     }
     // escape as the very last entry (missing continuation)
     {
